@@ -142,6 +142,7 @@ def gen_persist(r, ncases, maxlen=60):
     for k in range(3 if ncases < 100 else 20):
         ops += ["#case ps parallel", "ps.open", f"ps.parallel n={r.range(3, 8)} seed={r.range(1, 99)} procs={r.pick([1, 1, 0])} hold_ms={r.range(10, 60)}",
                 f"ps.parallel n={r.range(3, 8)} seed={r.range(1, 99)} procs={r.pick([1, 0])} hold_ms={r.range(10, 60)}"]
+    busy_left = 4 if ncases < 100 else 40   # each costs its hold time
     for _ in range(ncases):
         ops.append("#case ps")
         ops.append("ps.open")
@@ -155,6 +156,14 @@ def gen_persist(r, ncases, maxlen=60):
                 fid = r.pick(ids_bias)
             kind = r.pick(KINDS)
             c = r.below(100)
+            if last_saved and busy_left > 0 and r.chance(0.04):
+                # another controller starts (Init) while this database is being used by someone else for a while (seed
+                # C14g: a start-up probe took the held file lock for corruption and moved the database aside)
+                busy_left -= 1
+                ops.append(f"ps.initbusy hold_ms={r.pick([120, 150, 250])}")
+                for (k2, f2) in list(last_saved)[:3]:
+                    ops.append(f"ps.load{k2} id={f2}")
+                continue
             if c < 28:
                 tok = gen_rpm_data(r) if kind == "rpm" else gen_int_map(r)
                 prev = last_saved.get((kind, fid))
